@@ -7,6 +7,7 @@ import NeumannModel.Parse.Lex
 import NeumannModel.Parse.Text
 import NeumannModel.Parse.Clause
 import NeumannModel.Parse.Exec
+import NeumannModel.Parse.Insert
 /-
   Line-protocol driver for the expression-parser model (C15).
 
@@ -90,6 +91,9 @@ import NeumannModel.Parse.Exec
                                     for EVERY row list (a sort column that is missing in one row and NULL in
                                     another included: /repo 1133d8d8 made the closure of sort_rows a total
                                     preorder on all rows, ExecProps.order_by_comparator_is_a_total_preorder)
+            insrows <schema> <cols|-> <tuples>   INSERT … VALUES (Insert.lean): schema and column list are comma lists of
+                                    column words, tuples are `;`-separated comma lists of value words (`n` = NULL);
+                                    answer `rows <row>;…`, one row per tuple: `col=val,…` in schema order | `_`
             xlist <limit> <offset> <n>   NODE LIST / EDGE LIST over an engine answer of n items: `items <pos>,…` |
                                     `items -` | `error` (a LIMIT / OFFSET that is not an integer literal)
             xtake <limit> <n>       FIND … WHERE … [LIMIT] / SHOW EMBEDDINGS [LIMIT]: `items …` | `error`
@@ -671,6 +675,16 @@ def parseStep (_ : Unit) (line : String) : Unit × String :=
         -- aggregate selects: the harness sends the aggregate rows themselves as `rows`
         ((), showItems "rows" ((Exec.execSelect { aggregate := a, order := o, limit := l, offset := f } rs rs).map (·.id)))
       | _, _, _, _, _ => bad
+  | ["insrows", schema, cols, tuples] =>
+      -- INSERT … VALUES: columns and values are opaque words; `n` is NULL (shown like an absent cell)
+      let sch := schema.splitOn ","
+      let cl : Option (List String) := if cols = "-" then none else some (cols.splitOn ",")
+      let tps := if tuples = "-" then [] else (tuples.splitOn ";").map (fun t => if t = "_" then [] else t.splitOn ",")
+      let showRow (m : Insert.RowMap String String) : String :=
+        let cs := (Insert.cells sch m).filter (fun p => p.2 ≠ "n")
+        if cs.isEmpty then "_" else ",".intercalate (cs.map (fun p => p.1 ++ "=" ++ p.2))
+      let rows := Insert.execInsert sch cl tps
+      ((), "rows " ++ (if rows.isEmpty then "-" else ";".intercalate (rows.map showRow)))
   | ["xlist", limit, offset, n] =>
       match readClause limit, readClause offset, n.toNat? with
       | some l, some f, some n =>
